@@ -1,6 +1,7 @@
-(* C12 — primitive radial integrals: static theorems (the table theorem is per run, gen/Obl_C12.v). *)
-From Coq Require Import ZArith QArith List Bool.
-From LV Require Import Radial.RadialSym.
+(* C12 — primitive radial integrals: static theorems; they are instantiated on the case table regenerated from
+   src/lib/radial_gen.cpp on every run in gen/Obl_C12.v (table_ok_now, table_wf_now, cases_sound). *)
+From Coq Require Import ZArith QArith List Bool Reals.
+From LV Require Import Radial.RadialSym Radial.RadialSound Radial.RadialTable.
 Import ListNotations.
 Local Open Scope Z_scope.
 (* the normaliser rejects what it must: a non-monomial divisor and a C++ integer/integer division *)
@@ -15,3 +16,37 @@ Example C12_detects_wrong_case :
                        (BV 7, RDiv (RI 1) (RMul (RI 2) RX)); (BV 9, RDiv RP RX)])] in
   is_bad (check_case tab 10110) = true.
 Proof. vm_compute. reflexivity. Qed.
+
+(* Soundness of the normal form: a coefficient expression the normaliser accepts evaluates, in the reals, to its
+   Laurent normal form at every p, x, y <> 0 (the guard rejects integer/integer divisions, the only place where the
+   C++ value and the real value of such an expression differ). *)
+Theorem C12_norm_sound : forall (p x y : R), p <> 0%R -> x <> 0%R -> y <> 0%R ->
+  forall e l, norm e = Some l -> elp p x y l = ere p x y e.
+Proof. exact norm_sound. Qed.
+Print Assumptions C12_norm_sound.
+
+(* The table theorem: if a case table is well-formed and passes the symbolic check (no VBad verdict), then for EVERY
+   family T(i,j,k) that satisfies T(0,0,k) = values[k-2] and the two recurrences R_j, R_i, at every p, x, y <> 0, the
+   exact-arithmetic value of the case selected for (i,j,k) -- the sum over its statements of coefficient expression
+   times base integral, as written in the source -- is T(i,j,k); the only cases taken on trust are those no recurrence
+   reaches (verdict VUnchecked). *)
+Theorem C12_case_value : forall (p x y : R), p <> 0%R -> x <> 0%R -> y <> 0%R ->
+  forall (vals : basis -> R) (Tf : Z -> Z -> Z -> R),
+  (forall k, Tf 0 0 k = vals (BV (k - 2))) ->
+  (forall j k, 2 <= j -> Tf 0 j k = (Tf 0%Z (j - 2)%Z k - IZR (2 * j - 1) / (2 * y) * Tf 0%Z (j - 1)%Z (k - 1)%Z)%R) ->
+  (forall i j k, 1 <= i -> 1 <= j ->
+     Tf i j k = (IZR (2 + j - i - k) / (2 * x) * Tf (i - 1)%Z j (k - 1)%Z - y / x * Tf (i - 1)%Z (j - 1)%Z k + p / x * Tf (i - 1)%Z j (k + 1)%Z)%R) ->
+  forall tab, table_wf tab = true -> table_ok tab = true ->
+  (forall i j k l, 0 <= j < 100 -> 0 <= k < 100 -> check_case tab (key_of i j k) = VUnchecked ->
+     lookup tab i j k = Some l -> elc p x y vals l = Tf i j k) ->
+  forall i j k c, 0 <= i -> 0 <= j < 100 -> 0 <= k < 100 ->
+    find (fun c => fst c =? key_of i j k) tab = Some c -> ecase p x y vals (snd c) = Tf i j k.
+Proof. exact case_value. Qed.
+Print Assumptions C12_case_value.
+
+(* non-vacuity: a three-entry table that passes, with its R_j entry *)
+Example C12_example_table :
+  let tab := [(2, [(BV 0, RI 1)]); (4, [(BV 2, RI 1)]); (103, [(BV 0, RNeg (RDiv (RI 1) (RMul (RI 2) RY))); (BV 1, RI 1)]);
+              (204, [(BV 0, RDiv (RI 3) (RMul (RI 4) (RMul RY RY))); (BV 2, RI 1); (BV 1, RNeg (RDiv (RI 3) (RMul (RI 2) RY)))])] in
+  table_wf tab = true /\ table_ok tab = true /\ check_case tab 204 = VRj.
+Proof. vm_compute. repeat split. Qed.
